@@ -343,6 +343,73 @@ def group_rows_thorough(prog, sh=None):
     return group_rows(prog, sh, thorough=True)
 
 
+def newpoint_rows(prog, sh=None):
+    """ec_ws_new_point as the validator of public keys (C05, C04): every pair with a zero coordinate - (0, 0) is the
+    encoding of the neutral element, (0, sqrt(b)) is an ordinary point of the curve where b is a square, everything
+    else with one zero coordinate is off the curve - plus off-curve and unreduced pairs."""
+    sh = sh or Shard()
+    wrong = []
+    n = 0
+    if not CURVES:
+        raise Undecided("curve constants were not loaded")
+    for name in ("p256", "p384", "p521", "p224"):
+        if not sh.take():
+            continue
+        C = Curve(prog, name)
+        m = C.m
+        p, G, b = C.p, C.G, CURVES[name]["b"]
+        y0 = pow(b, (p + 1) // 4, p) if p % 4 == 3 else None
+        if y0 is not None and y0 * y0 % p != b % p:
+            y0 = None
+        rc, inf = C.point(None)
+        cases = [("(0, 1)", (0, 1), False), ("(1, 0)", (1, 0), False), ("(0, 5)", (0, 5), False), ("(Gx, 0)", (G[0], 0), False), ("(0, Gy)", (0, G[1]), False),
+                 ("(Gx, Gy + 1)", (G[0], (G[1] + 1) % p), False), ("(Gy, Gx)", (G[1], G[0]), False), ("G", G, True)]
+        if y0 is not None:
+            cases += [("(0, sqrt(b))", (0, y0), True), ("(0, -sqrt(b))", (0, p - y0), True)]
+        for what, A, ok in cases:
+            rc, q = C.point(A)
+            n += 1
+            if not ok:
+                if rc == 0:
+                    wrong.append("%s: ec_ws_new_point accepts %s, which is not on the curve%s" % (
+                        name, what, " (stored as the neutral element)" if m.call("ec_ws_cmp", [q, inf]) == 0 else ""))
+                continue
+            if rc != 0:
+                wrong.append("%s: the curve point %s is refused with %r" % (name, what, rc))
+                continue
+            if m.call("ec_ws_cmp", [q, inf]) == 0:
+                wrong.append("%s: the curve point %s is stored as the neutral element" % (name, what))
+            elif A != G and m.call("ec_ws_cmp", [q, C.point(G)[1]]) == 0:
+                wrong.append("%s: the curve point %s is stored as G" % (name, what))
+            elif name == "p256" and C.xy(q) != A:          # the affine read-back needs a field inversion: one curve only
+                wrong.append("%s: the curve point %s reads back as %r" % (name, what, C.xy(q)))
+        for what, (x, y) in (("(p, sqrt(b)): x = p", (p, y0 if y0 is not None else 1)), ("(1, p): y = p", (1, p))):
+            if max(x, y).bit_length() > 8 * C.len:
+                continue
+            rc, q = C.point((x, y))
+            n += 1
+            on = ((y % p) ** 2 - (x % p) ** 3 + 3 * (x % p) - b) % p == 0
+            if rc == 0 and (not on or m.call("ec_ws_cmp", [q, inf]) == 0):
+                wrong.append("%s: %s is accepted%s" % (name, what, " and stored as the neutral element" if m.call("ec_ws_cmp", [q, inf]) == 0 else " although its reduction is not on the curve"))
+    return n, wrong
+
+
+def newpoint_tables(check, ctx, rule="G-c"):
+    CURVES.clear()
+    CURVES.update(read_curves(ctx.repo))
+    prog = CProgram(ctx.cdb)
+    prog.tu(SRC)
+    res = run_sharded(ctx.root, prog, __name__, ["newpoint_rows"], shards=4)
+    n, wrong, und = res["newpoint_rows"]
+    if und:
+        raise AnalysisError("C evaluator could not decide the ec_ws_new_point rows: %s" % und)
+    check.ob(rule, "%s|c|ec_ws.new_point" % rule, not wrong, SRC, 0,
+             extracted=("%d of %d rows differ: " % (len(wrong), n) + "; ".join(wrong[:3])) if wrong else "%d rows on P-224/256/384/521: only (0, 0) is the neutral element; (0, +-sqrt(b)) are ordinary points; every other pair with a zero coordinate, off-curve pairs and swapped coordinates are refused" % n,
+             expected="ec_ws_new_point accepts exactly the points of the curve and the encoding (0, 0) of the neutral element")
+    check.count("c_ec_newpoint_rows", n)
+    return n
+
+
 def blind_rows(prog, sh=None):
     sh = sh or Shard()
     wrong = []
